@@ -10,7 +10,8 @@
 //	B  responses  every probe file name of the C13 alphabet x out configuration x entry kind x content
 //	              on the real ValidatePluginResponses + ResponseWriter in a sentinel-laden tree (responses.go)
 //	C  CLI        both halves through `buf generate` in-process with the recording/scripted plugin
-//	              binary protoc-gen-verif (cli.go, protoc-gen-verif/)
+//	              binary protoc-gen-verif (cli.go, protoc-gen-verif/); histories of per-input generation
+//	              runs inside one invocation (inputs.go)
 package c17
 
 import (
@@ -30,10 +31,11 @@ func init() {
 }
 
 func run(r *evid.Run) {
-	r.Rule("A: one case = (labelled import DAG, directory per file, WKT/option flag per file, target subset, strategy, include_imports, include_wkt[, type filter]); " +
+	r.Rule("A: one case = (labelled import DAG, import kind per edge {referenced, unused, public}, directory per file, WKT/option flag per file, unused-WKT-import flag per file, target subset, strategy, include_imports, include_wkt[, type filter][, image as compiled or after its wire form]); " +
 		"distinct non-trivial = distinct such tuples whose image contains at least one import or WKT. " +
 		"B/C: one case = (out configuration, probe file name, entry kind, content); distinct = (configuration, kind, structural class of the name, outcome stage). " +
-		"C requests: one case = (module, target subset, ordered list of 2-4 plugin configs - pairs with different grouping keys and groups of plugins that share the key (strategy, type filters) but differ in include_imports/include_wkt/opt/out - , command-line override). " +
+		"C inputs: one case = one `buf generate` invocation over 2-3 template inputs = a history of per-input generation runs (out configuration, probe name, which step produces / inserts into the probed file, which plugin). " +
+		"C requests: one case = (module [with unused imports], input kind {directory, binary image}, target subset, ordered list of 2-4 plugin configs - pairs with different grouping keys and groups of plugins that share the key (strategy, type filters) but differ in include_imports/include_wkt/opt/out - , command-line override). " +
 		"All spaces are enumerated completely, nothing is sampled.")
 	r.Assume("the protoc plugin itself is trusted to be any program: only what buf sends to it and what buf does with its response is judged")
 	r.Assume("out locations are plain directories or .zip/.jar files below one base directory; symlinked or case-folded spellings of one directory are out of scope")
@@ -102,6 +104,13 @@ func run(r *evid.Run) {
 		r.Set("C_probe_name_components", cliDepth)
 		runCLIResponses(r, scratch, bin, cliNames(cliDepth))
 		lap("cpu_s_half_C_responses")
+		// round 3: histories of per-input generation runs inside one invocation (buf.gen.yaml v2 `inputs:`)
+		plans := []inputsPlan{{2, cliNames(2)}, {3, cliNames(1)}}
+		if r.Quick() {
+			plans = []inputsPlan{{2, cliNames(1)}}
+		}
+		runCLIInputs(r, scratch, bin, plans)
+		lap("cpu_s_half_C_inputs")
 		runCLIRequests(r, scratch, bin, layoutList)
 		lap("cpu_s_half_C_requests")
 	}
@@ -113,13 +122,29 @@ func run(r *evid.Run) {
 			// quick: no file / one file / two files / every file imports the WKT and carries the options
 			{n: 3, dirs: xyz, wktMasks: []int{0, 1, 5, 7}, filterWkt: map[int]bool{0: true, 5: true}},
 		}
+		// round 3: imports that the image records specially. Every assignment of import kinds to the edges of every
+		// n=3 DAG (at least one import unused or public), and an unused well-known-type import, x every layout x
+		// every target subset x the 8 configurations; the all-targeted image also after its wire form.
+		unused := []reqSpace{
+			{n: 2, dirs: xyz, wktMasks: []int{0, 3}, kinds: []int{kindUsed, kindUnused, kindPublic}, emptyMasks: allMasks(2), skipPlain: true, viaWire: true},
+			{n: 3, dirs: xyz, wktMasks: []int{0}, kinds: []int{kindUsed, kindUnused}, skipPlain: true, viaWire: true},
+			{n: 3, dirs: xyz, wktMasks: []int{0}, emptyMasks: []int{1, 6}, skipPlain: true, viaWire: true},
+			{n: 3, dirs: xyz, wktMasks: []int{0}, kinds: []int{kindUsed, kindPublic}, skipPlain: true, viaWire: true},
+		}
+		if !r.Quick() {
+			unused = []reqSpace{
+				unused[0],
+				{n: 3, dirs: xyz, wktMasks: []int{0}, kinds: []int{kindUsed, kindUnused, kindPublic}, emptyMasks: []int{0, 1, 6, 7}, skipPlain: true, viaWire: true},
+			}
+		}
+		spaces = append(spaces, unused...)
 		if !r.Quick() {
 			spaces[1].wktMasks = allMasks(3)
 			spaces[1].filterWkt = map[int]bool{0: true, 1: true, 2: true, 4: true, 5: true, 7: true}
 			spaces = append(spaces, reqSpace{n: 4, dirs: xyz, wktMasks: []int{0, 1, 15}, dagClass: "monotone"})
 		}
 		if os.Getenv("VERIF_C17_A_SMALL") != "" { // debugging aid for mutant runs: a subset of the quick space
-			spaces = []reqSpace{spaces[0], {n: 3, dirs: xyz, wktMasks: []int{0, 5}, filterWkt: map[int]bool{5: true}}}
+			spaces = []reqSpace{spaces[0], {n: 3, dirs: xyz, wktMasks: []int{0, 5}, filterWkt: map[int]bool{5: true}}, unused[0]}
 		}
 		runRequests(r, spaces)
 		lap("cpu_s_half_A")
